@@ -269,6 +269,7 @@ func checkC13(r *Run) {
 						vs, ok := evalC13(cs)
 						c.st.Transitions += 2
 						c.st.Evals++
+						c.st.Outcomes[fmt.Sprintf("parsed=%v hdrcap=%d", ok, hc)]++
 						any = any || ok
 						for _, v := range vs {
 							r.Col.add(v)
